@@ -15,6 +15,7 @@
      decode <conf> <hexbytes>              ->  ok <state> | Eof | Bad
      reencode <now> <conf> <hexbytes>      ->  ok <hexbytes> | Eof | Bad         (encode now (decode bytes))
      encode <now> <state>                  ->  <hexbytes>
+     rawencode <now> <state>               ->  <hexbytes>   (encode without dropping the DELETED blocks of unused positions)
      normalise <now> <state>               ->  <state>
      roundtrip <now> <state>               ->  ok | DIFF <decoded-or-reject> WANT <normalised>
                                                (decode (conf_of s) (encode now s) against normalise now s)
@@ -220,6 +221,15 @@ let () =
             let now = num c in
             let s = parse_state c in
             print_endline (hex_of_bytes (encode now s))
+          | "rawencode" ->
+            (* the writer WITHOUT the clean-up of the DELETED blocks (a file as an older version could have left it):
+               write_body on the prepared record whose disks are the ones given *)
+            let now = num c in
+            let s = parse_state c in
+            let p = prepare s in
+            let st = p.p_st in
+            let raw = { p with p_st = { st with c_disks = s.c_disks } } in
+            print_endline (hex_of_bytes (add_crc (write_body now raw)))
           | "normalise" ->
             let now = num c in
             let s = parse_state c in
